@@ -16,9 +16,9 @@ import (
 func edgeValues(m mapping.IndexMapping, k Kind, full bool) []float64 {
 	mn, mx := m.MinIndexableValue(), m.MaxIndexableValue()
 	L := m.LowerBound
-	vs := []float64{0, 1, -1, L(1), math.Nextafter(L(1), 0), -L(2), 3.7, -3.7, mn / 2, 1}
+	vs := []float64{0, 1, -1, L(1), math.Nextafter(L(1), 0), -L(2), 3.7, -3.7, mn / 2, -mn / 2, 1}
 	if full {
-		vs = append(vs, L(0), math.Nextafter(L(0), 0), L(-1), -math.Nextafter(L(2), 0), 1234.5, -mn/2, mn, math.Nextafter(mn, 1))
+		vs = append(vs, L(0), math.Nextafter(L(0), 0), L(-1), -math.Nextafter(L(2), 0), 1234.5, mn, math.Nextafter(mn, 1))
 	}
 	if k.K != 'D' {
 		// array-backed stores would have to span the whole index range
@@ -64,6 +64,9 @@ func init() {
 					for _, v := range vals {
 						sp.Ops = append(sp.Ops, skAdd(0, v))
 					}
+					// a query between additions (the observers of the oracle run on
+					// disposable replays, so a read only perturbs where it is an operation)
+					sp.Ops = append(sp.Ops, skRead(0))
 					specs = append(specs, sp)
 				}
 			}
